@@ -104,16 +104,18 @@ Qed.
 
 (** * From the rules to a valid extension *)
 
-Lemma reps_valid o e :
+Lemma reps_valid_gen o e :
   reps o e -> CS.valid_spec (JObj o) = true ->
   Forall (fun n => 1 <= n) (shape (hdr_of e)) ->
   NoDup (keys_e e) ->
   (forall k c vs, In (k, (c, vs)) (entries e) -> class_ok (shape (hdr_of e)) c = true) ->
   (forall k vs, In (k, (GConst, vs)) (entries e) -> length vs = 1) ->
-  nondegenerate e ->
+  (forall k c vs, In (k, (c, vs)) (entries e) -> c <> GConst ->
+                  (is_slices c = true -> sdim (hdr_of e) <> None) ->
+                  mult_spec (dims (hdr_of e)) c = 1 -> length vs = 1) ->
   valid e.
 Proof.
-  intros R Hv Hp Hnd Hcok Hconst Hnondeg.
+  intros R Hv Hp Hnd Hcok Hconst Hdeg.
   apply CPM.valid_spec_rules in Hv as [_ [R2 [R3 [R4 [R5 [R6 [R7 _]]]]]]].
   pose proof (shape_value_reps _ _ R) as Hshape.
   assert (Hn : 3 <= length (shape (hdr_of e)) <= 5).
@@ -145,11 +147,26 @@ Proof.
     split; [exact Hsl|].
     destruct (cls_eqb_spec c GConst) as [->|Hc'].
     + rewrite (Hconst _ _ Hin). reflexivity.
-    + pose proof (Hnondeg _ _ _ Hin Hc') as Hm1. pose proof (mult_spec_pos (hdr_of e) c Hwf) as Hm0.
+    + destruct (Nat.eq_dec (mult_spec (dims (hdr_of e)) c) 1) as [Hm1|Hm1].
+      { rewrite Hm1. apply (Hdeg _ _ _ Hin Hc' Hsl Hm1). }
+      pose proof (mult_spec_pos (hdr_of e) c Hwf) as Hm0.
       unfold CS.rule_counts in R6. rewrite Hshape, Hsdv in R6. rewrite forallb_forall in R6.
       specialize (R6 _ Hvc). rewrite decode_name, Ed in R6. cbv zeta in R6.
       rewrite (n_expected_mult _ c _ eq_refl Hsl) in R6.
       destruct (1 <? _)%Z eqn:E1; [|apply Z.ltb_ge in E1; lia].
       rewrite forallb_forall in R6. specialize (R6 _ Hkv). unfold CS.value_count_ok in R6. cbn [snd] in R6.
       rewrite (n_values_render c vs Hc') in R6. apply Z.eqb_eq in R6. lia.
+Qed.
+
+Lemma reps_valid o e :
+  reps o e -> CS.valid_spec (JObj o) = true ->
+  Forall (fun n => 1 <= n) (shape (hdr_of e)) ->
+  NoDup (keys_e e) ->
+  (forall k c vs, In (k, (c, vs)) (entries e) -> class_ok (shape (hdr_of e)) c = true) ->
+  (forall k vs, In (k, (GConst, vs)) (entries e) -> length vs = 1) ->
+  nondegenerate e ->
+  valid e.
+Proof.
+  intros R Hv Hp Hnd Hcok Hconst Hnondeg. apply (reps_valid_gen o e R Hv Hp Hnd Hcok Hconst).
+  intros k c vs Hin Hc _ Hm. exfalso. apply (Hnondeg _ _ _ Hin Hc Hm).
 Qed.
